@@ -192,9 +192,11 @@ pub fn run(ctx: Ctx) -> ! {
     let f = Fx::new();
     let calls = build(&f, ctx.thorough);
 
-    let done: Vec<Done> = calls
+    type Viol = (String, String, Value);
+    let results: Vec<(Done, Vec<Viol>)> = calls
         .par_iter()
         .map(|call| {
+            let mut sink: Vec<Viol> = vec![];
             // ---- reference value
             let (want, steps, ln_n): (BigInt, u32, Option<i64>) = match call {
                 Call::Exp(x) => {
@@ -234,8 +236,8 @@ pub fn run(ctx: Ctx) -> ! {
             };
             let got = match res {
                 Err(p) => {
-                    ctx.violation(p.site(), format!("{} panicked: {} at {}", call.name(), p.message, p.location), call.json());
-                    return Done { got: None, series_steps: steps, matched: false };
+                    sink.push((p.site(), format!("{} panicked: {} at {}", call.name(), p.message, p.location), call.json()));
+                    return (Done { got: None, series_steps: steps, matched: false }, sink);
                 }
                 Ok(g) => g,
             };
@@ -243,7 +245,7 @@ pub fn run(ctx: Ctx) -> ! {
             let got_raw = match raw_of(&got) {
                 Ok(r) => Some(r),
                 Err(e) => {
-                    ctx.violation("readback:display", format!("result of {} cannot be read back: {e}", call.name()), call.json());
+                    sink.push(("readback:display".to_string(), format!("result of {} cannot be read back: {e}", call.name()), call.json()));
                     None
                 }
             };
@@ -276,7 +278,7 @@ pub fn run(ctx: Ctx) -> ! {
                     Call::Pow(b, y) => {
                         let ab = b.abs();
                         if y == &f.unit && got_raw.as_ref() == Some(b) {
-                            "pow:exponent=1 returns the base, not exp(1*ln base)".to_string()
+                            "pow:exponent=1-shortcut".to_string()
                         } else if b.is_zero() || ab == f.unit {
                             "pow:base in {0,1}".to_string()
                         } else {
@@ -303,15 +305,22 @@ pub fn run(ctx: Ctx) -> ! {
                         format!("~10^{}", d.to_string().len() - 1)
                     }
                 });
-                ctx.violation(
+                sink.push((
                     format!("ref-mismatch:{root}"),
                     format!("{}: pallas {shown}, reference algorithm {} (difference {} ulp)", call.json(), fx::short(&want), ulps.unwrap_or_default()),
                     call.json(),
-                );
+                ));
             }
-            Done { got: got_raw, series_steps: steps, matched }
+            (Done { got: got_raw, series_steps: steps, matched }, sink)
         })
         .collect();
+    let mut done: Vec<Done> = Vec::with_capacity(results.len());
+    for (d, sink) in results {
+        done.push(d);
+        for (fp, what, case) in sink {
+            ctx.violation(fp, what, case);
+        }
+    }
 
     // ---- true-value tolerance (mpmath)
     let mut queries: Vec<Value> = vec![];
@@ -341,13 +350,13 @@ pub fn run(ctx: Ctx) -> ! {
         let ok = a.get("ok").and_then(|v| v.as_bool()).unwrap_or(false);
         let err = a.get("err").and_then(|v| v.as_f64()).unwrap_or(f64::NAN);
         let tol = a.get("tol").and_then(|v| v.as_f64()).unwrap_or(f64::NAN);
+        let ratio = a.get("ratio").and_then(|v| v.as_f64()).unwrap_or(f64::NAN);
         if a.get("loose").and_then(|v| v.as_bool()) == Some(true) {
             loose += 1;
-        } else {
-            let w = worst.entry(call.name()).or_insert(0.0);
-            if err > *w {
-                *w = err;
-            }
+        }
+        let w = worst.entry(call.name()).or_insert(0.0);
+        if ratio > *w {
+            *w = ratio;
         }
         if !ok {
             ctx.violation(
@@ -395,7 +404,7 @@ pub fn run(ctx: Ctx) -> ! {
         "bit_identical_to_reference" => matched,
         "true_value_checks" => answers.len(),
         "true_value_checks_with_loose_tolerance" => loose,
-        "worst_relative_error_vs_mpmath_excluding_loose" => worst,
+        "worst_error_over_tolerance_vs_mpmath" => worst,
     };
     ctx.finish(
         Level::Exploration,
